@@ -68,6 +68,8 @@ pub struct Composed {
 pub struct Expected {
     pub j: usize,
     pub bytes: Vec<u8>,
+    /// the response carries no tag (explicitly empty body): recognised by its exact bytes, in order
+    pub untagged: bool,
 }
 
 pub struct Client {
@@ -696,6 +698,11 @@ impl World {
     }
 
     pub fn make_response(&mut self, c: usize, j: usize, code: u16, size: usize, version: u8) -> (Response, Vec<u8>) {
+        if size == usize::MAX {
+            // an explicitly set, empty body (Content-Length: 0)
+            let calls = vec![Call::SetBody(Vec::new())];
+            return (build_real(version, code, &calls), build_model(version, code, &calls).bytes());
+        }
         self.nonce += 1;
         let mut body = format!("c{}r{}#{}|", c, j, self.nonce).into_bytes();
         if size > body.len() {
@@ -720,7 +727,7 @@ impl World {
         let o = self.outstanding.remove(k);
         let version = version.unwrap_or_else(|| crate::connrun::version_code(o.sreq.request.http_version()));
         let (resp, bytes) = self.make_response(o.c, o.j, code, size, version);
-        self.clients[o.c].expected.push(Expected { j: o.j, bytes });
+        self.clients[o.c].expected.push(Expected { j: o.j, bytes, untagged: size == usize::MAX });
         let mut slot = Some(resp);
         let sresp = o.sreq.process(|_| slot.take().unwrap_or_else(|| Response::new(micro_http::Version::Http11, micro_http::StatusCode::OK)));
         let r = match std::panic::catch_unwind(std::panic::AssertUnwindSafe(|| self.server.as_mut().unwrap().respond(sresp))) {
@@ -811,7 +818,7 @@ impl World {
         }
         let mut v = Vec::new();
         for (c, j, bytes, sresp) in batch {
-            self.clients[c].expected.push(Expected { j, bytes });
+            self.clients[c].expected.push(Expected { j, bytes, untagged: false });
             self.respond_results.push((c, j, true));
             v.push(sresp);
         }
@@ -1070,6 +1077,14 @@ pub fn audit_client(w: &World, c: usize) -> Result<Audit, (String, String)> {
         let raw = &cl.recv[pos..pos + r.len];
         pos += r.len;
         let tags = find_tags(&r.body);
+        // an application response without a tag is recognised by position and exact bytes
+        if let Some(e) = cl.expected.get(next_expected) {
+            if e.untagged && e.bytes == raw {
+                next_expected += 1;
+                a.app_received += 1;
+                continue;
+            }
+        }
         let is_app = r.body.first() == Some(&b'c') && !tags.is_empty() && r.body.iter().position(|x| *x == b'#').map(|p| p < 16).unwrap_or(false);
         if is_app {
             let (tc, tj) = tags[0];
